@@ -11,7 +11,7 @@ import os
 import re
 import shlex
 
-from overlay import HARNESS_FILES, KANI_DIR
+from overlay import HARNESS_FILES, KANI_DIR, disabled_files
 
 
 def module_path(hname):
@@ -35,7 +35,7 @@ def load_kani_units():
     units = []
     for hname in sorted(HARNESS_FILES):
         path = os.path.join(KANI_DIR, hname)
-        if not os.path.exists(path):
+        if not os.path.exists(path) or hname in disabled_files():
             continue
         lines = open(path).read().split("\n")
         for i, line in enumerate(lines):
